@@ -106,6 +106,55 @@ def qn_job(comm, nprocs, npts, seed, out):
         out[rk].append((chi, [int(x) for x in lp.starts], [int(x) for x in lp.ends], np.array(phi2.getAllData()).copy()))
 
 
+def ops_job(comm, cfile, nprocs, seed, out):
+    """Every public grid-level entry point of the advection operators, including the ones the driver does not call
+    (PoloidalAdvection.gridStep_SplinesUnchanged after gridStep; the keep-gradient v-parallel step after a gradient-computing
+    one), on the given process grid, with a random potential: f after each stage, per rank."""
+    from pygyro.initialisation import setups
+    from pygyro.model.grid import Grid
+    from pygyro.model.layout import LayoutSwapper
+    from pygyro.advection.advection import FluxSurfaceAdvection, VParallelAdvection, PoloidalAdvection, ParallelGradient
+    rk = comm.Get_rank()
+    setups.compute_2d_process_grid = lambda npts, size: tuple(nprocs)
+    with sl.warnings.catch_warnings():
+        sl.warnings.simplefilter("ignore")
+        f, c, _ = setups.setupCylindricalGrid(layout="v_parallel", constantFile=cfile, comm=comm, allocateSaveMemory=True)
+        npr = f.getLayout(f.currentLayout).nprocs[:2]
+        grp = [{"v_parallel_2d": [0, 2, 1], "mode_solve": [1, 2, 0]}, {"v_parallel_1d": [0, 2, 1]}, {"poloidal": [2, 1, 0]}]
+        rem = LayoutSwapper(comm, grp, [npr, npr[0], npr[1]], f.eta_grid[:3], "v_parallel_2d")
+        phi = Grid(f.eta_grid[:3], f.getSpline(slice(0, 3)), rem, "v_parallel_2d", comm, dtype=np.complex128)
+        npts = [len(e) for e in f.eta_grid]
+        r, q, z = np.meshgrid(f.eta_grid[0], f.eta_grid[1], f.eta_grid[2], indexing="ij")
+        R = np.random.RandomState(seed).uniform(-1.0, 1.0, npts[:3]) * 0.05 + 0.3 * np.cos(2 * q + 0.01 * z) * np.sin(r / 3.0)
+        lay = rem.getLayout("v_parallel_2d")
+        phi.getAllData()[:] = np.transpose(R, (0, 2, 1))[lay.starts[0]:lay.ends[0], lay.starts[1]:lay.ends[1], lay.starts[2]:lay.ends[2]]
+        dt = c.dt
+        flux = FluxSurfaceAdvection(f.eta_grid, f.get2DSpline(), f.getLayout("flux_surface"), 0.5 * dt, c)
+        vpar = VParallelAdvection(f.eta_grid, f.getSpline(3), c)
+        pol = PoloidalAdvection(f.eta_grid, f.getSpline(slice(1, None, -1)), c)
+        pgv = np.empty([f.getLayout("v_parallel").shape[0], c.npts[2], c.npts[1]])
+        pg = ParallelGradient(f.getSpline(1), f.eta_grid, rem.getLayout("v_parallel_1d"), c)
+
+        def snap(stage):
+            l = f.getLayout(f.currentLayout)
+            out[rk].append((stage, [int(x) for x in l.dims_order], [int(x) for x in l.starts], [int(x) for x in l.ends], np.array(f.getAllData()).copy()))
+        f.setLayout("poloidal")
+        phi.setLayout("poloidal")
+        pol.gridStep(f, phi, 0.5 * dt)
+        snap("poloidal gridStep")
+        pol.gridStep_SplinesUnchanged(f, dt)
+        snap("poloidal gridStep_SplinesUnchanged after gridStep")
+        f.setLayout("v_parallel")
+        phi.setLayout("v_parallel_1d")
+        vpar.gridStep(f, phi, pg, pgv, 0.5 * dt)
+        snap("v-parallel gridStep")
+        vpar.gridStepKeepGradient(f, pgv, 0.5 * dt)
+        snap("v-parallel gridStepKeepGradient after gridStep")
+        f.setLayout("flux_surface")
+        flux.gridStep(f)
+        snap("flux-surface gridStep")
+
+
 def run(ctx):
     from mpi4py import MPI
     from harness import h5emu
@@ -183,6 +232,40 @@ def run(ctx):
                     same = dev <= 1e-12
                 events.append({"k": "field", "what": "potential of the quasi-neutrality pipeline, chi=%d" % chi, "ok": bool(rs.ok), "same": same, "err": rs.describe()})
                 meta.append({"iota": 0.8, "nprocs": g, "npts": qn_npts, "what": "QN pipeline on a density with non-zero average, chi=%d" % chi, "rel_dev": dev})
+        # every public grid-level operator entry point (also those the driver does not call), every process grid against serial
+        from pygyro.initialisation import setups as _su
+        _orig = _su.compute_2d_process_grid
+        ocfile = scenarios.write_constants(os.path.join(work, "c_ops.json"), npts=NPTS, iotaVal=0.8, eps=0.05, m=3, **GENERIC)
+        oref = None
+        try:
+            for g in [[1, 1]] + [x for x in grids if x != [1, 1]]:
+                n = int(np.prod(g))
+                out = [[] for _ in range(n)]
+                rs = MPI.run(n, ops_job, policy="random", seed=rng.randint(0, 999), args=(ocfile, g, 11, out))
+                full = {}
+                if rs.ok:
+                    for o in out:
+                        for stage, order, st, en, blk in o:
+                            A = full.setdefault(stage, np.full(NPTS, np.nan))
+                            V = np.transpose(A, order)        # view in the layout's order
+                            V[tuple(slice(a, b) for a, b in zip(st, en))] = blk
+                if g == [1, 1]:
+                    oref = full
+                for stage in (oref or {}):
+                    same, dev = False, -1.0
+                    if rs.ok and stage in full:
+                        sc = float(np.nanmax(np.abs(oref[stage]))) or 1.0
+                        d_ = np.abs(full[stage] - oref[stage])
+                        dev = float(np.max(d_)) / sc if not np.isnan(d_).any() else float("inf")
+                        same = dev <= 1e-12
+                    events.append({"k": "field", "what": "f after " + stage, "ok": bool(rs.ok), "same": same, "err": rs.describe()[:300]})
+                    meta.append({"iota": 0.8, "nprocs": g, "npts": NPTS, "what": "operator entry point: " + stage, "rel_dev": dev})
+                if not oref:
+                    events.append({"k": "field", "what": "operator entry points (serial reference)", "ok": False, "same": False, "err": rs.describe()[:300]})
+                    meta.append({"iota": 0.8, "nprocs": g, "npts": NPTS, "what": "operator entry points: serial reference failed", "rel_dev": -1.0})
+                    break
+        finally:
+            _su.compute_2d_process_grid = _orig
         # the three starting layouts on every process grid
         from pygyro.initialisation import setups
         orig = setups.compute_2d_process_grid
